@@ -232,6 +232,7 @@ func PrintStmtOrdinals(p *Prog, fi *FuncInfo) {
 		return
 	}
 	n := 0
+	seenTxt := map[string]int{}
 	ast.Inspect(fi.Decl.Body, func(nd ast.Node) bool {
 		if _, isLit := nd.(*ast.FuncLit); isLit {
 			return false
@@ -240,7 +241,13 @@ func PrintStmtOrdinals(p *Prog, fi *FuncInfo) {
 			if _, isBlock := st.(*ast.BlockStmt); !isBlock {
 				n++
 				pos := p.Fset.Position(st.Pos())
-				fmt.Printf("stmt%-3d %s:%d %T\n", n, shortFile(pos.Filename), pos.Line, st)
+				txt := StmtText(p, st)
+				seenTxt[txt]++
+				key := "stmt[" + txt + "]"
+				if seenTxt[txt] > 1 {
+					key = fmt.Sprintf("stmt[%s]#%d", txt, seenTxt[txt])
+				}
+				fmt.Printf("stmt%-3d %s:%d %T\t%s\n", n, shortFile(pos.Filename), pos.Line, st, key)
 			}
 		}
 		return true
